@@ -14,7 +14,8 @@ A *scenario* (the case JSON, self-contained) is
    "src_cls"/"dst_cls": "local"|"base",  "req": [token...], "shallow", "verify", "dix", "six",
    "rounds": [{"fails": [token...], "partial": [token...], "crash": n|null, "reset": bool,
                "delete": [token...], "req": [token...]}]}
-   ("dix"/"six": false | true (a real ObjectDBIndex, empty at the start, persisted across the rounds) |
+   ("dst_state": true = the destination odb gets a real hash State (sqlite), persisted across the rounds;
+    "dix"/"six": false | true (a real ObjectDBIndex, empty at the start, persisted across the rounds) |
    "noop" (ObjectDBIndexNoop); "vanish": [file tokens] - objects deleted from the SOURCE by the
    validate_status hook if status counted them new, i.e. between the status phase and the uploads, and
    restored after the round;
@@ -271,6 +272,11 @@ class Scenario:
                 self.dix = mk(case["dix"], "dest")
             if case.get("six"):
                 self.six = mk(case["six"], "src")
+        self.dst_state = None
+        if case.get("dst_state"):
+            from dvc_data.hashfile.state import State
+
+            self.dst_state = State(root_dir=self.root, tmp_dir=os.path.join(self.root, "state"))
         self.external = False  # objects were deleted behind the index's back
         self.excluded = {}  # oracle checks skipped, by reason
         self.rounds = []  # observations
@@ -293,7 +299,7 @@ class Scenario:
             self.dix.clear()
 
     def close(self):
-        for ix in (self.dix, self.six):
+        for ix in (self.dix, self.six, self.dst_state):
             if ix is not None:
                 try:
                     ix.close()
@@ -328,7 +334,7 @@ class Scenario:
         fs = faultfs_class()()
         fs.rec = rec
         dcls = LocalHashFileDB if case["dst_cls"] == "local" else HashFileDB
-        dest = dcls(fs, self.p_dst)
+        dest = dcls(fs, self.p_dst, state=self.dst_state) if self.dst_state is not None else dcls(fs, self.p_dst)
         src = impl.make_odb(case["src_cls"], self.p_src)
         cache = impl.make_odb(case.get("cache_cls", "local"), self.p_cache) if self.has_cache else None
         obj_ids = {HashInfo("md5", self.oid[t]) for t in ob["req"]}
@@ -517,10 +523,26 @@ def _status_listing(S, o):
     return parse_listing(st[o]) if o in st else None
 
 
+def index_hypothesis(S, ob):
+    """the destination index at the start of the round is sound, or stale in the way the real
+    validation detects and repairs (a directory is requested and an indexed directory object is
+    gone: the index is cleared) - the Coq hypothesis ix_sound.  Returns "none" | "truthful" |
+    "detected" | None (= outside the hypothesis)."""
+    dixb = ob["dix_before"]
+    before = ob["dst_before"]
+    if dixb is None:
+        return "none"
+    if all(k in before for k in dixb):
+        return "truthful"
+    if any(is_dir(S.oid[t]) for t in ob["req"]) and any(v and k not in before for k, v in dixb.items()):
+        return "detected"
+    return None
+
+
 def c04_preconditions(S, ob):
     """None if the round is inside C04's quantifier, else the reason it is not"""
-    if ob["external"]:
-        return "external deletion"
+    if index_hypothesis(S, ob) is None:
+        return "stale index the validation cannot detect"
     for st in (S.src0, S.cache0 or {}, ob["dst_before"]):
         for o, b in st.items():
             if is_dir(o) and (not genuine(o, b) or parse_listing(b) is None):
@@ -544,8 +566,11 @@ def judge_c04(S):
     for ri, ob in enumerate(S.rounds):
         why = c04_preconditions(S, ob)
         if why is not None:
+            S.excluded["c04:" + why] = S.excluded.get("c04:" + why, 0) + 1
             prev = None
             continue
+        if index_hypothesis(S, ob) == "detected":
+            S.excluded["judged:stale-index-detected"] = S.excluded.get("judged:stale-index-detected", 0) + 1
         # closure at every observation point
         for si, snap in enumerate(ob["snaps"]):
             od = open_dirs(snap)
@@ -614,10 +639,17 @@ def judge_c11(S):
         if S.cache0 is not None and ob["cache_after"] != S.cache0:
             problems.append(("C11:source-modified", f"round {ri}: the cache_odb store changed"))
         oc = ob["outcome"]
-        if oc[0] != "ok" or ob["status"] is None:
+        if oc[0] != "ok":
             continue
         transferred, failed = oc[1], oc[2]
-        s_ok, s_missing, s_new, s_deleted = ob["status"]
+        # the four status sets are what the validate_status callback RECEIVED in this round; a
+        # round that returned a result without calling it has told the caller nothing
+        hint = ""
+        if ob["status"] is None:
+            s_ok, s_missing, s_new, s_deleted = set(), set(), set(), set()
+            hint = " (validate_status was not called: nothing was reported missing)"
+        else:
+            s_ok, s_missing, s_new, s_deleted = ob["status"]
         before, after = ob["dst_before"], ob["dst_after"]
         indexed = ob["dix_before"] is not None or ob["six_before"] is not None
         name = lambda o: S.tok.get(o, o)  # noqa: E731
@@ -664,6 +696,10 @@ def judge_c11(S):
             elif after[o] != S.src0.get(o):
                 problems.append(("C11:transferred-wrong-bytes",
                                  f"round {ri}: {name(o)} reported transferred; destination bytes differ from the source's"))
+            elif S.case["verify"] and not genuine(o, after[o]):
+                problems.append(("C11:transferred-corrupt",
+                                 f"round {ri}: verify=True, {name(o)} reported transferred, but the bytes that arrived "
+                                 f"do not hash to the id"))
         # an upload that left a truncated object behind did not deliver: it must be reported failed
         for o in sorted({e[1] for e in ob["events"] if e[0] == "partial"}):
             if o not in failed:
@@ -678,15 +714,10 @@ def judge_c11(S):
         closed_before = not open_dirs(before)
         st_view = S.cache0 if S.cache0 is not None else S.src0
         views_agree = all(st_view[o] == b for o, b in before.items() if is_dir(o) and o in st_view)
-        dixb = ob["dix_before"]
-        if dixb is None:
-            hyp = True
-        else:
-            truthful = all(k in before for k in dixb)
-            detected = any(is_dir(S.oid[t]) for t in ob["req"]) and any(v and k not in before for k, v in dixb.items())
-            hyp = closed_before and views_agree and (truthful or detected)
-            if hyp and not truthful:
-                S.excluded["judged:stale-index-detected"] = S.excluded.get("judged:stale-index-detected", 0) + 1
+        ih = index_hypothesis(S, ob)
+        hyp = ih == "none" or (ih is not None and closed_before and views_agree)
+        if hyp and ih == "detected":
+            S.excluded["judged:stale-index-detected"] = S.excluded.get("judged:stale-index-detected", 0) + 1
         if not same_view:
             S.excluded["absent-unreported:cache-source-disagree"] = S.excluded.get("absent-unreported:cache-source-disagree", 0) + 1
         elif not hyp:
@@ -695,7 +726,7 @@ def judge_c11(S):
             for o in sorted(hashes):
                 if o not in after and o not in failed and o not in s_missing and o not in transferred:
                     problems.append(("C11:absent-unreported",
-                                     f"round {ri}: {name(o)} is absent afterwards but neither failed nor missing"))
+                                     f"round {ri}: {name(o)} is absent afterwards but neither failed nor missing" + hint))
         attempted = set(ob["putorder"])
         if not same_view:
             # cache_odb and the source disagree about a requested directory's bytes: the two
@@ -1013,6 +1044,82 @@ def gen_history(rng):
     return case, notes
 
 
+def gen_history_c04(rng):
+    """C04: push T1={a,b,..}; a "remote gc" removes T1's directory object and those of its files no
+    other present directory lists (the destination STAYS closed, the persistent destination index
+    goes stale); push a different tree T2 that shares `a` (closed request) on the same index; repeat.
+    Returns (case, notes)."""
+    salt = "%08x" % rng.getrandbits(32)
+    files = {f"f{i}": f"{salt}-gc-{i}".encode().hex() for i in range(5)}
+    a, b, c, e, g = list(files)
+    dirs = {"d0.dir": [["a", a], ["sub/b", b]] + ([["e", e]] if rng.random() < 0.3 else []),
+            "d1.dir": [["a", a], ["c", c]] + ([["again/a", a]] if rng.random() < 0.3 else [])}
+    notes = ["history"]
+    third = rng.random() < 0.4
+    if third:
+        dirs["d2.dir"] = [["b", b], ["g", g]]  # keeps b alive through the gc
+        notes.append("history:third-dir-keeps-b")
+    shallow = rng.random() < 0.5
+    case = {"prop": "C04", "files": files, "dirs": dirs, "src": {t: None for t in list(files) + list(dirs)},
+            "cache": None, "dst": {}, "req": ["d0.dir"], "shallow": shallow, "verify": rng.random() < 0.3,
+            "src_cls": rng.choice(["local", "base"]), "dst_cls": rng.choice(["local", "base"]),
+            "dix": True, "six": False, "rounds": []}
+    if third and rng.random() < 0.5:
+        case["dst"] = {"d2.dir": None, b: None, g: None}  # already there, closed
+        notes.append("dest:whole-dirs")
+
+    def want(*ds):
+        out = []
+        for d in ds:
+            out += closed_req(case, d) if shallow else [d]
+        return list(dict.fromkeys(out))
+
+    first = want("d0.dir", "d2.dir") if third and not case["dst"] else want("d0.dir")
+    rounds = [{"fails": [], "crash": None, "reset": True, "req": first}]
+    t1_files = [f for _, f in dirs["d0.dir"]]
+    kept = {f for _, f in dirs.get("d2.dir", [])} if third else set()
+    gone = [f for f in dict.fromkeys(t1_files) if f not in kept]
+    r = rng.random()
+    if r < 0.6:
+        dele = ["d0.dir"] + gone
+        notes.append("history:gc=dir+all-unshared-files")
+    elif r < 0.85:
+        dele = ["d0.dir", a]
+        notes.append("history:gc=dir+a")
+    else:
+        dele = ["d0.dir"]
+        notes.append("history:gc=dir-only")
+    r2 = {"fails": [], "crash": None, "reset": False, "delete": dele, "req": want("d1.dir")}
+    if rng.random() < 0.25:
+        r2["fails"] = [rng.choice([c, "d1.dir", a])]
+        notes.append("history:second-round-faulty")
+    rounds.append(r2)
+    r = rng.random()
+    if r < 0.5:
+        rounds.append({"fails": [], "crash": None, "reset": False, "req": list(r2["req"])})
+    elif r < 0.8:
+        rounds.append({"fails": [], "crash": None, "reset": False, "req": want("d0.dir", "d1.dir")})
+        if rng.random() < 0.5:
+            rounds.append({"fails": [], "crash": None, "reset": False, "req": want("d1.dir"),
+                           "delete": ["d1.dir", c]})
+    case["rounds"] = rounds
+    notes.append("history:rounds=%d" % len(rounds))
+    notes.append("mode-history:" + ("shallow" if shallow else "expand"))
+    return case, notes
+
+
+def crash_variants(case, k, m, points=None):
+    """scenarios that replay rounds 0..k of a history and abort round k right after upload attempt n"""
+    out = []
+    for n in (points if points is not None else range(1, m + 1)):
+        c = json.loads(json.dumps(case))
+        c["rounds"] = c["rounds"][:k + 1]
+        c["rounds"] = [r for r in c["rounds"] if r.get("crash") is None]
+        c["rounds"][k] = {**c["rounds"][k], "crash": n}
+        out.append(c)
+    return out
+
+
 def fail_sets(rng, uploads, shared, exhaustive_limit, k_random):
     """non-empty fail sets over the would-be uploads (tokens)"""
     out = []
@@ -1152,8 +1259,39 @@ def builtin_corpus(prop):
                     "dix": cls == "local", "six": False,
                     "rounds": [{"fails": [], "vanish": ["f1"], "crash": None, "reset": True},
                                {"fails": [], "crash": None, "reset": False}]})
+    # seeded change C04/r3m1: a remote gc keeps the destination closed but leaves the persistent
+    # index stale; the next push of a different tree that shares f0 must re-validate the index
+    fg = {"f0": hx(b"shared-a"), "f1": hx(b"only-b"), "f2": hx(b"only-c")}
+    dg = {"d0.dir": [["a", "f0"], ["b", "f1"]], "d1.dir": [["a", "f0"], ["c", "f2"]]}
+    srcg = {t: None for t in list(fg) + list(dg)}
+    for cls, shallow in (("local", True), ("base", False), ("base", True)):
+        r1 = ["d0.dir", "f0", "f1"] if shallow else ["d0.dir"]
+        r2 = ["d1.dir", "f0", "f2"] if shallow else ["d1.dir"]
+        out.append({"prop": prop, "files": fg, "dirs": dg, "src": srcg, "cache": None, "dst": {},
+                    "req": r1, "shallow": shallow, "verify": False, "src_cls": "local", "dst_cls": cls,
+                    "dix": True, "six": False,
+                    "rounds": [{"fails": [], "crash": None, "reset": True, "req": r1},
+                               {"fails": [], "crash": None, "reset": False, "delete": ["d0.dir", "f0", "f1"], "req": r2},
+                               {"fails": [], "crash": None, "reset": False, "req": r2}]})
+    # seeded change C11/r3m1: a real hash State on the destination must not vouch for an object
+    # before it was verified.  f0's source copy is corrupt (mode 0o444), verify=True
+    for cls in ("local", "base"):
+        out.append({"prop": prop, "files": f, "dirs": d, "src": src_rot, "cache": None, "dst": {},
+                    "req": ["d0.dir", "f0", "f1", "f3"], "shallow": True, "verify": True, "src_cls": "local",
+                    "dst_cls": cls, "dix": False, "six": False, "dst_state": True,
+                    "rounds": [{"fails": [], "crash": None, "reset": True},
+                               {"fails": [], "crash": None, "reset": False}]})
     if prop != "C11":
         return out
+    # seeded change C11/r3m2: an id that exists on neither side is reported missing in EVERY round,
+    # also when nothing is new (the retry)
+    fgh = dict(f)
+    fgh["g0"] = hx(b"ghost: nowhere")
+    out.append({"prop": prop, "files": fgh, "dirs": d, "src": allsrc, "cache": None, "dst": {"f2": None},
+                "req": ["d0.dir", "f0", "f1", "g0"], "shallow": True, "verify": False, "src_cls": "base",
+                "dst_cls": "local", "dix": False, "six": False,
+                "rounds": [{"fails": [], "crash": None, "reset": True},
+                           {"fails": [], "crash": None, "reset": False}]})
     # seeded change m1: a stale index must be re-validated even when the indexed directory is not
     # part of the query.  push A; A's directory object and its file x vanish; push {B, x}
     fh = {"f0": hx(b"x-contents"), "f1": hx(b"y-contents"), "f2": hx(b"z-contents")}
